@@ -40,7 +40,10 @@ def show(word):
 # ------------------------------------------------------------------ escapes (E5)
 
 def multipass(ctx, rule, e, what):
-    if e.written is not None:
+    if e.written is not None and getattr(e, 'guarded', False):
+        wit = ('%s: the text %r (an escaped backslash directly followed by the escape %r) denotes %s; the reader yields %s'
+               % (what, e.written, e.written[2:], e.single, e.multi))
+    elif e.written is not None:
         wit = ('%s: the text %r (an escaped backslash, then %r) denotes %r; the reader rewrites %r first and returns %s'
                % (what, e.written, e.written[2:], e.single, e.written[1:], e.multi))
     else:
@@ -361,6 +364,20 @@ def ladder_check(ctx, rule, modname, mode):
         test, body, node = lad[idx]
         if test is None:
             raises = any(isinstance(x, ast.Raise) for x in body)
+            cont = list(body)
+            if not cont:
+                # an if-chain without else: what follows the chain in dump_scalar is the continuation
+                top = body_wo_doc(fn)
+                chains = [i for i, x in enumerate(top) if isinstance(x, ast.If)]
+                cont = top[chains[0] + 1:] if chains else []
+            raises = any(isinstance(x, ast.Raise) for x in cont)
+            delegates = [c for x in cont for c in ast.walk(x) if isinstance(c, ast.Call) and isinstance(c.func, ast.Name)
+                         and any(isinstance(a, ast.Name) and a.id == p for a in c.args)]
+            if not raises and delegates:
+                # the ladder goes on in another function: not a refusal of the kind
+                ctx.error(rule, '%s ladder: kind %s falls through to `%s`, the dispatch continues outside dump_scalar'
+                          % (modname, kind, norm(delegates[0])[:60]))
+                continue
             ctx.violation(rule, '%s::dump_scalar' % F, 'else: %s' % (norm(body[0]).split('\n')[0] if body else ''),
                           'dump_scalar(<%s value>) reaches the final else branch%s' % (
                               kind, ' and raises NotImplementedError' if raises else ''),
